@@ -250,14 +250,28 @@ impl<'a> Gen<'a> {
             c
         };
         let failing_call = |rng: &mut Rng, labels: &mut Vec<String>, base: &Value| -> Value {
-            let (rel, kind) = (*rng.pick(&enabled_bad)).clone();
+            let (mut rel, mut kind) = (*rng.pick(&enabled_bad)).clone();
+            let mut related = false;
+            // a copy of this call's own schema text under a name that must fail to load
+            if let Some(sp) = base["schema"].as_str() {
+                if let Some((_, rel_bad)) = self.tree.bad_related.iter().find(|(d, _)| sp.contains(&format!("/{}/", d)) || sp.contains(&format!("symdir_{}/", d))) {
+                    if rng.chance(1, 3) {
+                        let (r, k) = rng.pick(rel_bad).clone();
+                        rel = r;
+                        kind = k;
+                        related = true;
+                    }
+                }
+            }
             let p = if kind == "missing" && rng.chance(1, 2) {
                 rel.clone() // relative spelling of a missing path
             } else {
                 self.tree.abs(&rel)
             };
             let mut c = base.clone();
-            let as_schema = if rel.contains("schema") || rel.ends_with(".json") || rel.ends_with(".txt") {
+            let as_schema = if related {
+                true
+            } else if rel.contains("schema") || rel.ends_with(".json") || rel.ends_with(".txt") {
                 rng.chance(4, 5)
             } else {
                 rng.chance(1, 4)
